@@ -423,6 +423,19 @@ async fn run_op(c: &mut ACase, idx: usize, toks: &[&str]) -> String {
         },
         ["setfault", id, k] => { c.shared.lock().unwrap().fault = Some((id.parse().unwrap(), k.parse().unwrap())); "ok:unit".to_string() }
         ["clearlog"] => { let mut sh = c.shared.lock().unwrap(); sh.log.clear(); sh.fault = None; "ok:unit".to_string() }
+        ["xrawname", b, name] => {
+            use std::os::unix::ffi::OsStringExt;
+            let d = c.tmpdirs[b.parse::<usize>().unwrap()].clone();
+            let _ = std::fs::write(d.join(std::ffi::OsString::from_vec(unhex(name))), b"raw");
+            "ok:unit".to_string()
+        }
+        ["xsymlink", b, name, target] => {
+            let d = c.tmpdirs[b.parse::<usize>().unwrap()].clone();
+            let n = String::from_utf8(unhex(name)).unwrap();
+            let t = String::from_utf8(unhex(target)).unwrap();
+            let _ = std::os::unix::fs::symlink(t, d.join(n));
+            "ok:unit".to_string()
+        }
         _ => "ok:unit".to_string(),
     }
 }
